@@ -89,7 +89,7 @@ fn c02_besteffort_frag_step() {
     let mut r = s::new_reader(ReliabilityKind::BestEffort);
     let floor: i64 = kani::any();
     kani::assume(floor >= 0 && floor <= 1000);
-    s::proxy(&mut r).irrelevant_change_set(floor);
+    s::proxy(&mut r).received_change_set(floor);
     let old_max = s::proxy(&mut r).available_changes_max();
     let sn: i64 = kani::any();
     kani::assume(sn >= 0 && sn <= 1002);
